@@ -1015,10 +1015,10 @@ CORPUS = [
     ('wf', "version: '2.0'\nwf:\n  tasks:\n    t1: [a]\n    t2:\n      action: std.noop\n", 'dsl'),
     ('wb', "version: '2.0'\nname: wb\nactions:\n  a1: abc\n", 'dsl'),
     ('wb', "version: '2.0'\nname: wb\nworkflows:\n  w1: abc\n", 'dsl'),
-    # aliases are not expanded (a "billion laughs" document is a definition error, quickly)
+    # aliases are not expanded: '&a [x, ...]' and '*a' are plain strings, the document stays as small as its text
     ('wf', "version: '2.0'\nwf:\n  vars:\n    a: &a [x, x, x, x, x, x, x, x]\n    b: &b [*a, *a, *a, *a, *a, *a, *a, *a]\n    c: &c [*b, *b, *b, *b, *b, *b, *b, *b]\n"
            "    d: &d [*c, *c, *c, *c, *c, *c, *c, *c]\n    e: &e [*d, *d, *d, *d, *d, *d, *d, *d]\n    f: &f [*e, *e, *e, *e, *e, *e, *e, *e]\n"
-           "    g: &g [*f, *f, *f, *f, *f, *f, *f, *f]\n  tasks:\n    t1:\n      action: std.noop\n", 'dsl'),
+           "    g: &g [*f, *f, *f, *f, *f, *f, *f, *f]\n  tasks:\n    t1:\n      action: std.noop\n", 'accept'),
     # F3 slicing: a task named like a later workflow
     ('wb', "version: '2.0'\nname: wb\nworkflows:\n  wf1:\n    tasks:\n      wf2:\n        action: std.noop\n  wf2:\n    tasks:\n      t:\n        action: std.echo output=1\n", 'accept'),
     ('wb', "version: '2.0'\nname: wb\ndescription: 'my workflows: are here'\nworkflows:\n  wf1:\n    tasks:\n      t:\n        action: std.noop\n", 'accept'),
